@@ -432,7 +432,6 @@ Qed.
 Ltac use_same :=
   repeat match goal with
          | H : (?a = ?a \/ _) |- _ => clear H
-         | H : ((?a = ?a /\ _) \/ _) |- _ => fail 1
          | H : ((_ = _ /\ _) \/ _) |- _ => destruct H as [(H & _) | H]; [discriminate H|]
          | H : (_ = _ \/ _) |- _ => destruct H as [H | H]; [discriminate H|]
          end.
@@ -441,7 +440,8 @@ Ltac positions :=
   let i := fresh "i" in
   intros i _ _;
   first [ reflexivity
-        | do 27 (destruct i as [|i]; [cbn; try reflexivity; lia|]); cbn; reflexivity ].
+        | do 27 (destruct i as [|i]; [cbn -[Z.mul Z.add Z.div Z.modulo]; try reflexivity; lia|]);
+          cbn -[Z.mul Z.add Z.div Z.modulo]; reflexivity ].
 
 Lemma scp_wire_isolation : forall f q q',
   scp_in_width q -> scp_in_width q' -> same_except f q q' -> differ_only_in f q (scp_wire q) (scp_wire q').
